@@ -65,7 +65,8 @@ def run(ctx):
             toks = mtgen.tokens(body)
             # envelope variants: empty / unmodelled-only / full user header and trailer
             pre_no3 = re.sub(r"\{3:(\{[^{}]*\})*\}\n?", "", pre)
-            for b3 in ("{3:}\n", "{3:{108:REF123}}\n", "{3:{113:URGT}{108:MUR1}{119:STP}{121:a1b2c3d4-e5f6-4a7b-8c9d-0e1f2a3b4c5d}}\n"):
+            for b3 in ("{3:}\n", "{3:{108:REF123}}\n", "{3:{113:URGT}{108:MUR1}{119:STP}{121:a1b2c3d4-e5f6-4a7b-8c9d-0e1f2a3b4c5d}}\n",
+                       "{3:{103:EBA}{113:URGT}{108:MUR1}{119:STP}{423:260930123456}{106:260930BANKDEFFAXXX0001000001}{424:PQR}{111:001}{121:a1b2c3d4-e5f6-4a7b-8c9d-0e1f2a3b4c5d}{115:X}{165:/ABC/INFO}{433:/AOK/INFO}{434:/FPO/INFO}}\n"):
                 for b5 in ("", "{5:}\n", "{5:{PDE:1348120811BANKFRPPAXXX2222123456}}\n", "{5:{CHK:123456789ABC}}\n", "{5:{MAC:00000000}{CHK:123456789ABC}{TNG:}}\n"):
                     if rng.random() < (1.0 if ctx.tier == "thorough" else 0.25):
                         post_no5 = re.sub(r"\{5:.*", "", post, flags=re.S)
@@ -81,8 +82,8 @@ def run(ctx):
         # layout-generated bodies
         pre0 = mtgen.split_message(lst[0][1])
         if pre0:
-            for k in range(90 if ctx.tier == "thorough" else 8):
-                g.p_opt = rng.choice([0.2, 0.5, 0.9])
+            for k in range(90 if ctx.tier == "thorough" else 16):
+                g.p_opt = rng.choice([0.2, 0.5, 0.9, 0.97])
                 r = g.gen("MT" + c)
                 if r:
                     msgs.append((c, mtgen.rebuild(pre0[0], r[0], pre0[2]))); meta.append("layoutgen:%s/%d" % (c, k))
@@ -107,11 +108,24 @@ def run(ctx):
         bad = [k for k in ("again_ok", "again_equal", "again_fixpoint") if not r.get(k)]
         if bad:
             # attribute to field-level findings when the failing field is a listed one
+            # a failing round trip is attributed to a listed finding only if EVERY field that differs between the input and
+            # the serialised text is one the finding names (same tags in the same order, nothing missing, nothing moved)
             kid = None
-            for k in known:
-                m = k.get("match", {})
-                if m.get("kind") == "msg_rt" and re.search(m["text_re"], text, re.S):
-                    kid = k["id"]; break
+            sp_in, sp_out = mtgen.split_message(text.replace("\r\n", "\n")), mtgen.split_message((r.get("mt") or "").replace("\r\n", "\n"))
+            if sp_in and sp_out:
+                tin, tout = mtgen.tokens(sp_in[1]), mtgen.tokens(sp_out[1])
+                if [t for t, _ in tin] == [t for t, _ in tout]:
+                    diffs = [(a, b) for a, b in zip(tin, tout) if engine.canon_content(a[1]) != engine.canon_content(b[1])]
+                    kids = []
+                    for a, b in diffs:
+                        one = None
+                        for k in known:
+                            m = k.get("match", {})
+                            if m.get("kind") == "msg_rt" and re.search(m["text_re"], ":%s:%s" % (a[0], a[1]), re.S):
+                                one = k["id"]; break
+                        kids.append(one)
+                    if diffs and all(kids):
+                        kid = kids[0]
             if kid:
                 ctx.known_hits[kid] = ctx.known_hits.get(kid, 0) + 1
             else:
@@ -142,6 +156,19 @@ def run(ctx):
             for f in (FIELD_VARIANTS if ctx.tier == "thorough" else FIELD_VARIANTS[:8]):
                 v = f(cn)
                 cases.append("fparse\t%s\t%s\t%s" % (ty, lk, hexs(v))); cmeta.append((ty, lk, v))
+    # contents drawn from the documented formats (every component at its boundary lengths, optional components in and
+    # out, every line count): the accepted ones must survive print and re-parse like any other accepted content
+    try:
+        import fmtgen
+        F = fmtgen.load()
+        for T in sorted(F):
+            if T not in all_types:
+                continue
+            for why, content in fmtgen.cases_for(rng, F[T]["fmt"], 40 if ctx.tier == "thorough" else 10):
+                if why == "valid" or why.startswith("len") or why.startswith("lines"):
+                    cases.append("fparse\t%s\t_\t%s" % (T, hexs(content))); cmeta.append((T, "_", content))
+    except Exception as e:
+        ctx.notes.append("fmtgen: %r" % (e,))
     cdir = os.path.join(ROOT, "corpus", PROP)
     for f in sorted(os.listdir(cdir)) if os.path.isdir(cdir) else []:
         if f.endswith(".case"):
